@@ -41,6 +41,7 @@ def strategy(tier):
         "ext": st.booleans(),
         "flags_off": st.lists(st.sampled_from(M.FLAG_KINDS), max_size=3, unique=True),
         "headers": st.one_of(st.none(), st.lists(st.sampled_from(HEADER_POOL), min_size=2, max_size=5, unique=True)),
+        "diagnostics": st.sampled_from([True, False, False, False]),
     })
 
 
@@ -78,6 +79,11 @@ def evaluate(case):
         loc = sb.path("loc")
         inp = os.path.join(loc, "in")
         S.materialize(tree, inp)
+        if case.get("diagnostics") and not lone:
+            # a file that makes CMinx log warnings/errors (dangling doccomment, declaration with too few arguments):
+            # the "nothing but the pages on stdout" clause is conditional on no diagnostics, the file-system clauses are not
+            with open(os.path.join(inp, "zz_diag.cmake"), "w") as f:
+                f.write("ct_add_test(NAME)\ncpp_class()\nfunction(ok_diag)\nendfunction()\n#[[[\n# dangling at EOF\n#]]\n")
         cwd = sb.path("cwd")
         outloc = case["outloc"]
         if lone and outloc.startswith("nested"):
@@ -167,6 +173,9 @@ def evaluate(case):
             res.fail("stdout-mode-touches-files", f"snapshot changed without -o: {diff}")
         # the nested output directory now exists inside the input tree: it is pruned (no .cmake inside) so pages are unchanged
         order, why = split_stdout(run2.stdout, pages)
+        if case.get("diagnostics") and not lone:
+            res.labels.append("diagnostics-triggered")
+            order, why = [], None       # stdout may carry the diagnostics: not constrained
         if order is None:
             kind = "log-line" if (" - INFO - " in run2.stdout or " - DEBUG - " in run2.stdout or "cminx" in why) else "content"
             res.fail(f"stdout-not-pages:{kind}", why)
@@ -180,7 +189,7 @@ def evaluate(case):
                 want = [T.stem_of(n) + ".rst" for n in src_names if T.stem_of(n) + ".rst" in names]
                 if names != want:
                     res.fail("stdout-order-within-directory", f"directory {d!r}: printed {names}, sorted order is {want}")
-        if run2.stderr.strip():
+        if run2.stderr.strip() and not (case.get("diagnostics") and not lone):
             res.fail("stdout-mode-stderr-noise", run2.stderr[:200])
         # real subprocess for a sample
         if int(digest(case)[:2], 16) % 8 == 0:
@@ -193,7 +202,7 @@ def evaluate(case):
                 res.fail("subprocess-exit", f"exit {p.returncode}: {p.stderr[-200:]!r}")
             else:
                 o2, why2 = split_stdout(p.stdout.decode("utf-8"), pages)
-                if o2 is None:
+                if o2 is None and not (case.get("diagnostics") and not lone):
                     res.fail("subprocess-stdout-not-pages", why2)
                 if S.snapshot(sb.root) != end:
                     res.fail("subprocess-stdout-mode-touches-files", "snapshot changed")
